@@ -35,14 +35,30 @@ Definition normalize_host (host : str) (tls : bool) : str := lower (strip_port h
 Definition ch_colon : N := 58.
 Definition has_colon (s : str) : bool := existsb (fun c => c =? ch_colon) s.
 
+(* net.SplitHostPort (go1.24 net/ipsock.go), errors and the success with empty host and
+   empty port both as ([], []) - ReverseHostPort cannot tell them apart.  A leading '['
+   opens an IPv6 literal: "[h]:p" gives (h, p). *)
+Definition starts_bracket (s : str) : bool := match s with c :: _ => c =? 91 | [] => false end.
 Definition split_host_port (s : str) : str * str :=
   match last_index_byte s ch_colon with
   | None => ([], [])                                  (* missing port *)
-  | Some i => let host := firstn i s in
-              if has_colon host then ([], [])         (* too many colons *)
-              else if existsb (fun c => (c =? 91) || (c =? 93)) s then ([], [])
+  | Some i =>
+      if starts_bracket s then
+        match index_byte s 93 with
+        | None => ([], [])                            (* missing ']' in address *)
+        | Some e =>
+            if Nat.eqb (S e) i then
+              if existsb (fun c => c =? 91) (skipn 1 s) || existsb (fun c => c =? 93) (skipn (S e) s)
+              then ([], [])                           (* unexpected '[' / ']' in address *)
+              else (firstn (e - 1) (skipn 1 s), skipn (S i) s)
+            else ([], [])                             (* missing port / too many colons *)
+        end
+      else
+        let host := firstn i s in
+        if has_colon host then ([], [])               (* too many colons *)
+        else if existsb (fun c => (c =? 91) || (c =? 93)) s then ([], [])
                                                       (* unexpected '[' / ']' in address *)
-              else (host, skipn (S i) s)
+        else (host, skipn (S i) s)
   end.
 
 Definition join_host_port (host port : str) : str :=
